@@ -696,6 +696,45 @@ def factory_documented(c, impl):
     return out
 
 
+def probe_cases_c18():
+    i = base.POOL["identity"][0]
+    def v(t, pay):
+        return {"cls": "identity21", "typ": "identity", "id": i, "pay": pay, "cre": "2015-01-01T00:00:00.000Z",
+                "mod": "2020-01-01T00:00:0%d.000Z" % t}
+    def mem(*os_):
+        return {"t": "mem", "adds": [{"t": "dict", "o": o} for o in os_]}
+    get = [{"op": "get", "id": i}]
+    return [
+        {"kind": "c18", "shape": "probe", "src": {"t": "comp", "ms": [mem(v(3, 1)), mem(v(1, 2)), mem(v(2, 3))]}, "reads": get},
+        {"kind": "c18", "shape": "probe", "src": {"t": "comp", "ms": [mem(v(1, 1)), mem(v(2, 2))]}, "reads": get},
+        {"kind": "c18", "shape": "probe", "src": {"t": "comp", "ms": [mem(v(1, 1), v(2, 2))]}, "reads": [{"op": "all", "id": i}]},
+        {"kind": "c18", "shape": "probe", "src": {"t": "comp", "af": [{"k": "pay", "v": 2}],
+                                                  "ms": [{"t": "comp", "ms": [mem(v(1, 1), v(2, 2))]}]},
+         "reads": [{"op": "get", "id": i}, {"op": "all", "id": i}, {"op": "query", "q": []}]},
+    ]
+
+
+def read_probes_c18(impl, rm):
+    def pays(tok):
+        return sorted(x[2] for x in tok) if isinstance(tok, list) else None
+    out = {"related": rm}
+    try:
+        a, b = pays(impl[0][0]), pays(impl[1][0])
+        if b == [2] and a == [1]:
+            out["run_max"], out["members"], out["cget_cmp"] = "UpdateOnTake", "AllMembers", "CmpGt"
+        elif b == [2] and a == [3]:
+            out["run_max"] = "UpdateAlways"
+        elif b == [1]:
+            out["members"] = None      # first hit or `<`: told apart by the text
+        out["dedupe_key"] = {2: "KeyIdVer", 1: "KeyId"}.get(len(impl[2][0]))
+        out["merge_get"] = "Merged" if pays(impl[3][0]) in ([2], []) else "OwnOnly"
+        out["merge_all"] = "Merged" if pays(impl[3][1]) == [2] else "OwnOnly"
+        out["merge_query"] = "Merged" if pays(impl[3][2]) == [2] else "OwnOnly"
+    except (IndexError, TypeError, KeyError):
+        pass
+    return out
+
+
 # --------------------------------------------------------------------------
 
 def detect_rm(impl_w):
@@ -724,6 +763,7 @@ def check(run):
                            + ("" if quick else " + coqchk -o V.Props.C18"))
         if not quick and res["ok"]:
             base.run_coqchk(run, "V.Props.C18")
+        facts = base.source_step(run, "Props/C18Src.v")
     probe = common.run_impl("c11_impl", [{"kind": "probe"}], procs=1)[0]
     base.NAIVE_KEPT[0] = bool(probe.get("naive_kept", True))
     cases = [witness_case(), base.witness_case("mem")]
@@ -738,6 +778,7 @@ def check(run):
     impl = common.run_impl("c18_impl", cases)
     rm = detect_rm(impl[0])
     mode = base.detect_mode(impl[1])
+    base.compare_text_and_probe(run, facts, read_probes_c18(common.run_impl("c18_impl", probe_cases_c18(), procs=1), rm))
     run.coverage["variant_selected"] = {"related_to": rm, "text_order": mode}
     c18_cases = [0] + list(range(2, len(cases)))
     hist = {}
